@@ -623,3 +623,18 @@ def fold_text(e):
         if isinstance(sep, str) and isinstance(items, (list, tuple)) and all(isinstance(x, str) for x in items):
             return sep.join(items)
     raise ValueError(norm(e))
+
+
+def row_values(e):
+    """value expressions written into a row: right side of a %-format, the items of sep.join(...),
+    the fields of an f-string; None when e is not such a row"""
+    from .fmt import written_values
+    if isinstance(e, ast.Call) and isinstance(e.func, ast.Attribute) and e.func.attr in ('rstrip', 'strip') :
+        return row_values(e.func.value)
+    if isinstance(e, ast.BinOp) and isinstance(e.op, ast.Mod):
+        return written_values(e.right)
+    if isinstance(e, ast.Call) and isinstance(e.func, ast.Attribute) and e.func.attr == 'join' and len(e.args) == 1:
+        return written_values(e.args[0])
+    if isinstance(e, ast.JoinedStr):
+        return [v.value for v in e.values if isinstance(v, ast.FormattedValue)]
+    return None
